@@ -1142,3 +1142,5 @@ RULE += (' Added: an element whose results are its own live state (copied by the
          'arrival); values that are objects compared by identity (the results hold those objects).')
 RULE += (' Added: wrapped fill/compute, fill/request and run elements whose user code raises '
          'StopIteration at value k (every position in a block): run() must fail, not end.')
+
+RULE += (' Round 10: block sizes 6..130 with flows of up to four blocks, random request schedules, Split block sizes around them; lena.flow.Count (run and fill/compute) as wrapped element; FillRequestSeq around one FillRequest of its own block size.')
